@@ -82,7 +82,7 @@ end
 
 /-- numerator and denominator of `deep_distance` for an ordered comparison -/
 def deepDistance (cfg : DCfg) (al : Align) (hashOf : PyVal → String) (t1 t2 : PyVal) : Nat × Nat :=
-  (payloadLen (buildDelta true false t1 t2 (deepDiff cfg al hashOf t1 t2)), roughLen cfg.ignorePrivate t1 + roughLen cfg.ignorePrivate t2)
+  (payloadLen (buildDelta true false t1 t2 (diffUnmerged cfg al hashOf t1 t2)), roughLen cfg.ignorePrivate t1 + roughLen cfg.ignorePrivate t2)
 
 /-- `DDIST <zip> <thrN> <thrD> <t1> <t2>` -/
 def ddistLine (ts : List String) : String :=
